@@ -441,7 +441,7 @@ def probe_D2():
 def confirm_deviations(o):
     """Each directed probe, executed twice: rejected by the contract cfg and accepted by the as-coded cfg -> the deviation is in the
     tree (KNOWN-FINDING, the bulk is validated as coded); accepted by the contract -> the deviation is gone; rejected by both ->
-    the regular violation path."""
+    the regular violation path (against the as-coded cfg, so that the reported event is the unexplained one)."""
     confirmed = []
     for did, pr in (("D1", probe_D1()), ("D2", probe_D2())):
         traces, sids, wall = vlib.run_schedules(o.pid, PKG, "TestExec", [pr, pr], tag="probe_" + did)
@@ -459,8 +459,8 @@ def confirm_deviations(o):
             confirmed.append(FINDINGS[did][0])
             o.known.append((FINDINGS[did][0], FINDINGS[did][1]))
         elif vs.rejected:
-            _dev[did] = False
-            vlib.conformance(o, FAMILY, TRACE, strict, PKG, [pr], tag="probe_" + did)
+            # neither the contract nor the deviation explains what the code did: report it against the as-coded configuration
+            vlib.conformance(o, FAMILY, TRACE, cfg_ascoded, PKG, [pr], tag="probe_" + did)
             if not o.violations:
                 raise vlib.Infra("probe %s rejected by the contract and by the as-coded cfg, but not reproduced" % did)
         else:
